@@ -301,6 +301,20 @@ impl Writer {
         self.file.load(off)
     }
 
+    /// The two durability barriers of a commit.
+    fn flush_and_write_root(&mut self) -> Result<(), StorageError> {
+        // Barrier 1: ensure the appended data is durable before the
+        // root that references it, so a crash can't leave the root
+        // pointing at data that never reached disk.
+        if self.data_dirty {
+            self.file.sync()?;
+            self.data_dirty = false;
+        }
+
+        // Barrier 2: durably record the new root and write frontier.
+        self.write_root()
+    }
+
     fn write_root(&mut self) -> Result<(), StorageError> {
         self.root.generation = self
             .root
@@ -358,20 +372,18 @@ impl Write for Writer {
         // Append the head set, then atomically point the root at it + the
         // fact cache.
         let (_, heads_offset) = self.append_at(|_| heads.clone())?;
+        let previous = (self.root.heads, self.root.fact_cache);
         self.root.heads = Some(heads_offset);
         self.root.fact_cache = Some(fact_cache.get());
 
-        // Barrier 1: ensure the appended data is durable before the
-        // root that references it, so a crash can't leave the root
-        // pointing at data that never reached disk.
-        if self.data_dirty {
-            self.file.sync()?;
-            self.data_dirty = false;
+        let result = self.flush_and_write_root();
+        if result.is_err() {
+            // The commit did not complete: this writer must keep reporting
+            // the last committed head set and fact cache, not the ones of
+            // the commit that failed.
+            (self.root.heads, self.root.fact_cache) = previous;
         }
-
-        // Barrier 2: durably record the new root and write frontier.
-        self.write_root()?;
-        Ok(())
+        result
     }
 }
 
